@@ -105,7 +105,7 @@ func TestC05(t *testing.T) {
 		w.Build()
 		targets := map[string][]byte{"leaf": w.Leaf.X.SerialNumber.Bytes(), "int": p.Int.X.SerialNumber.Bytes(), "tcb": p.TcbSig.X.SerialNumber.Bytes(), "qe": p.QeSig.X.SerialNumber.Bytes()}
 
-		pck := crlPlan{signer: rapid.SampledFrom(signers).Draw(t, "pckSigner"), outcome: rapid.SampledFrom(outcomes).Draw(t, "pckOutcome"), header: rapid.SampledFrom(ok7("ok", "missing", "empty", "one-cert", "pki-b")).Draw(t, "pckHeader")}
+		pck := crlPlan{signer: rapid.SampledFrom(signers).Draw(t, "pckSigner"), outcome: rapid.SampledFrom(outcomes).Draw(t, "pckOutcome"), header: rapid.SampledFrom(ok7("ok", "missing", "empty", "one-cert", "pki-b", "forged-matching-foreign-key", "forged-matching-foreign-key")).Draw(t, "pckHeader")}
 		pck.revoked, pck.contains = drawRevoked(t, "pck", targets, s)
 		root := crlPlan{signer: rapid.SampledFrom(signers).Draw(t, "rootSigner")}
 		root.revoked, root.contains = drawRevoked(t, "root", targets, s)
@@ -155,6 +155,17 @@ func TestC05(t *testing.T) {
 		case "pki-b":
 			pb := gen.NewPKI(gen.PKISpec{Seed: "pki-other-hdr"})
 			pr.Header = map[string][]string{gen.HdrPckCrl: {gen.IssuerChainHeader(pb.Int, pb.Root)}}
+		case "forged-matching-foreign-key":
+			// a certificate carrying the Platform CA's exact name and the FOREIGN key that signs forged CRLs,
+			// under a look-alike root: the two inputs (CRL signature, header) cooperate
+			fakeRoot := gen.MakeCert(gen.CertSpec{CN: gen.CNRoot, KeyLabel: "c05/fakeroot", Serial: []byte{5, 5}, NotBefore: gen.Wide.NotBefore, NotAfter: gen.Wide.NotAfter, CA: true, CRLDP: dps}, nil)
+			fakeInt := gen.MakeCert(gen.CertSpec{CN: gen.CNPlatform, KeyLabel: "c05/foreign", Serial: p.Int.X.SerialNumber.Bytes(), NotBefore: gen.Wide.NotBefore, NotAfter: gen.Wide.NotAfter, CA: true, CRLDP: dps}, fakeRoot)
+			pr.Header = map[string][]string{gen.HdrPckCrl: {gen.IssuerChainHeader(fakeInt, fakeRoot)}}
+			if pck.signer != "correct" {
+				pck.signer = "foreign-key"
+				pckDER = mk("pck", pck)
+				pr.Body = body(pck.outcome, pckDER, rootDER).Body
+			}
 		}
 		w.Resp[gen.PckCrlURL("platform")] = pr
 		// root CRL distribution points: each has its own outcome
@@ -173,10 +184,10 @@ func TestC05(t *testing.T) {
 		if pck.outcome != "ok" {
 			reject = "PCK CRL " + pck.outcome
 		}
-		if pck.header != "ok" && pck.header != "pki-b" {
+		if pck.header != "ok" && pck.header != "pki-b" && pck.header != "forged-matching-foreign-key" {
 			dontCare = "PCK CRL issuer-chain header " + pck.header
 		}
-		if pck.header == "pki-b" {
+		if pck.header == "pki-b" || pck.header == "forged-matching-foreign-key" {
 			dontCare = "PCK CRL issuer-chain header from another PKI"
 		}
 		if pck.signer != "correct" {
